@@ -186,6 +186,19 @@ def _mortar(S, MC):
     g = J.scalar(J.symbolic_call(jax.grad(MC.smooth_linear), a, l))
     S.add(q + '/slope_between_zero_and_one', hy, tm.and_(g >= 0, g <= 1))
     S.canary(q, hy)
+    # common normals of a pair of segments
+    for nm in ('compute_average_normal', 'compute_normal_from_a'):
+        S.function('MortarContact.' + nm, getattr(MC, nm), 'J')
+    eA, eB = J.sym_array('eA', (2, 2)), J.sym_array('eB', (2, 2))
+    nA = J.to_obj(J.symbolic_call(MC.compute_normal, eA))
+    nB = J.to_obj(J.symbolic_call(MC.compute_normal, eB))
+    nav = J.to_obj(J.symbolic_call(MC.compute_average_normal, eA, eB))
+    nfa = J.to_obj(J.symbolic_call(MC.compute_normal_from_a, eA, eB))
+    nd = [d2(eA[0], eA[1]) > 0, d2(eB[0], eB[1]) > 0]
+    diff = [nA[i] - nB[i] for i in range(2)]
+    S.add('MortarContact.compute_normal_from_a/is_the_outward_unit_normal_of_the_first_segment', nd, tm.and_(tm.eq(nfa[0], nA[0]), tm.eq(nfa[1], nA[1])), timeout=60000)
+    S.add('MortarContact.compute_average_normal/is_the_unit_vector_along_the_difference_of_the_two_outward_normals', nd + [diff[0] * diff[0] + diff[1] * diff[1] > 0],
+          tm.and_(tm.eq(nav[0] * nav[0] + nav[1] * nav[1], 1), tm.eq(nav[0] * diff[1], nav[1] * diff[0]), nav[0] * diff[0] + nav[1] * diff[1] > 0), timeout=120000)
     # the active integral: weights from the smoothed overlap, uninterpreted non-negative integrand
     q2 = 'MortarContact.integrate_with_active_mortar'
     xiA, xiB, gg = J.sym_array('xiA', (2,)), J.sym_array('xiB', (2,)), J.sym_array('g', (2,))
